@@ -98,6 +98,10 @@ fn get_patient(src: Ipv4Addr, dst: SocketAddr, path: &str) -> Result<Resp, Strin
 const ENTRIES: [&str; 6] = ["127.0.0.1", "127.0.0.2/32", "127.0.0.0/30", "127.0.1.0/24", "10.0.0.0/8", "::1/128"];
 const PEERS: [[u8; 4]; 8] = [[127, 0, 0, 1], [127, 0, 0, 2], [127, 0, 0, 3], [127, 0, 0, 4], [127, 0, 1, 0], [127, 0, 1, 255], [127, 0, 2, 0], [127, 1, 1, 1]];
 const PATHS: [&str; 4] = ["/", "/metrics", "/health", "/healthz"];
+/// "any path": also long ones (a request head of 9 kB and of 60 kB; http::Uri allows up to 65534 bytes)
+fn long_paths() -> Vec<String> {
+    vec![format!("/metrics/{}", "a".repeat(9_000)), format!("/metrics?{}", "q=1&".repeat(15_000))]
+}
 
 /// independent CIDR arithmetic: does the IPv4 peer lie in the network written as `entry`?
 fn in_net(entry: &str, peer: [u8; 4]) -> bool {
@@ -231,16 +235,21 @@ fn matrix_part(ctx: &Ctx, res: &mut PartResult, lists: Vec<Option<Vec<&'static s
                 continue;
             }
         };
-        for peer in PEERS {
-            for path in PATHS {
+        let long = long_paths();
+        for (pi, peer) in PEERS.iter().enumerate() {
+            let peer = *peer;
+            // the long paths from the first two peers (one inside, one outside most lists)
+            let paths: Vec<&str> = PATHS.iter().copied().chain(long.iter().filter(|_| pi < 2).map(|s| s.as_str())).collect();
+            for path in paths {
                 res.executions += 1;
                 res.transitions += 1;
                 let r = get_patient(Ipv4Addr::from(peer), ex.addr, path);
+                let shown: String = if path.len() > 40 { format!("{}… ({} bytes)", &path[..24], path.len()) } else { path.to_string() };
                 match judge(allow.as_deref(), peer, path, &r) {
                     Ok(o) => {
-                        states.add(&(format!("{:?}", allow), peer, o));
+                        states.add(&(format!("{:?}", allow), peer, o, path.len() > 40));
                     }
-                    Err((sig, msg)) => res.violation(&sig, format!("allowlist {:?}, peer {:?}, GET {}: {}", allow, Ipv4Addr::from(peer), path, msg), replay.clone()),
+                    Err((sig, msg)) => res.violation(&sig, format!("allowlist {:?}, peer {:?}, GET {}: {}", allow, Ipv4Addr::from(peer), shown, msg), replay.clone()),
                 }
             }
         }
@@ -299,6 +308,7 @@ fn disturbance_part(ctx: &Ctx, res: &mut PartResult) {
             }
         };
         let mut held: Vec<TcpStream> = Vec::new();
+        let mut wedged = false;
         for seq in &seqs {
             if ctx.over_budget() {
                 res.cap_hit = Some("budget (cpu time of the part)".into());
@@ -337,6 +347,9 @@ fn disturbance_part(ctx: &Ctx, res: &mut PartResult) {
                         for h in hs {
                             let r = h.join().unwrap();
                             if let Err((sig, msg)) = judge(allow.as_deref(), [127, 0, 0, 1], "/metrics", &r) {
+                                if sig == "client-not-served" {
+                                    wedged = true;
+                                }
                                 res.violation(&sig, format!("one of 8 concurrent scrapers: {}", msg), json!({"seq": seq}));
                             }
                         }
@@ -363,6 +376,11 @@ fn disturbance_part(ctx: &Ctx, res: &mut PartResult) {
                     }
                 }
             }
+            if wedged {
+                res.exhaustive = false;
+                res.cap_hit = Some("stopped at the first disturbance sequence after which the exporter no longer served".into());
+                break;
+            }
             // the probe after any disturbance is served
             for (peer, path) in [([127, 0, 0, 1], "/metrics"), ([127, 0, 0, 1], "/health"), ([127, 0, 2, 0], "/metrics")] {
                 let r = get_patient(Ipv4Addr::from(peer), ex.addr, path);
@@ -371,10 +389,24 @@ fn disturbance_part(ctx: &Ctx, res: &mut PartResult) {
                         states.add(&(format!("{:?}", seq), o));
                     }
                     Err((sig, msg)) => {
-                        let sig = if sig == "client-not-served" { "later-client-not-served-after-disturbance".to_string() } else { sig };
-                        res.violation(&sig, format!("after disturbances {:?} (allowlist {:?}) probe from {:?} GET {}: {}", seq.iter().map(|d| DISTS[*d]).collect::<Vec<_>>(), allow, Ipv4Addr::from(peer), path, msg), json!({"seq": seq}))
+                        let dead = sig == "client-not-served";
+                        let sig = if dead { "later-client-not-served-after-disturbance".to_string() } else { sig };
+                        res.violation(&sig, format!("after disturbances {:?} (allowlist {:?}) probe from {:?} GET {}: {}", seq.iter().map(|d| DISTS[*d]).collect::<Vec<_>>(), allow, Ipv4Addr::from(peer), path, msg), json!({"seq": seq}));
+                        if dead {
+                            // this exporter no longer serves: every further sequence against it would only wait for the
+                            // same time-outs (33 s per probe)
+                            wedged = true;
+                        }
                     }
                 }
+                if wedged {
+                    break;
+                }
+            }
+            if wedged {
+                res.exhaustive = false;
+                res.cap_hit = Some("stopped at the first disturbance sequence after which the exporter no longer served".into());
+                break;
             }
         }
         drop(held);
@@ -700,7 +732,7 @@ fn main() {
     driver::main(CheckDef {
         prop: "C18",
         level: "fault_enumeration",
-        rule: "allowlists = none and all subsets of size 1-2 (thorough: ordered pairs and subsets of size 3) of {127.0.0.1 (plain address), 127.0.0.2/32, 127.0.0.0/30, 127.0.1.0/24, 10.0.0.0/8, ::1/128} x peers bound to {127.0.0.1,.2,.3,.4, 127.0.1.0, 127.0.1.255, 127.0.2.0, 127.1.1.1} x paths {/, /metrics, /health, /healthz}, one request each against a fresh real exporter (builder.build() on a tokio runtime); oracle: independent CIDR arithmetic; inside => 200 and the body parses (strict parser) to exactly the recorded state, /health => OK; outside => 403 with an empty body; plus all disturbance sequences of length <= 2 (thorough 3) over {garbage bytes, half a request then idle, connect + RST, 8 concurrent scrapers, 4 refused scrapes, a silent connection held open by a refused peer, a keep-alive connection idling after its answer held by a refused peer and by an allowed peer} each followed by probes that must be served; plus an exporter listening on [::1] scraped from ::1 under no allowlist and all subsets of size 1-2 of {::1, ::1/128, ::/64, ::/8, fe80::/10, 2001:db8::/32, 127.0.0.1, 0.0.0.0/8} (an IPv4 network never admits an IPv6 peer); plus all sequences (depth <= 3 quick / 5 thorough) over {record, scrape, wait for the exporter's periodic upkeep task (15 ms period)}: every scrape reports exactly the samples recorded so far; distinct_nontrivial = distinct (allowlist, peer, outcome) / (sequence, outcome) cases",
+        rule: "allowlists = none and all subsets of size 1-2 (thorough: ordered pairs and subsets of size 3) of {127.0.0.1 (plain address), 127.0.0.2/32, 127.0.0.0/30, 127.0.1.0/24, 10.0.0.0/8, ::1/128} x peers bound to {127.0.0.1,.2,.3,.4, 127.0.1.0, 127.0.1.255, 127.0.2.0, 127.1.1.1} x paths {/, /metrics, /health, /healthz; from two of the peers also a 9 kB path and a 60 kB query string}, one request each against a fresh real exporter (builder.build() on a tokio runtime); oracle: independent CIDR arithmetic; inside => 200 and the body parses (strict parser) to exactly the recorded state, /health => OK; outside => 403 with an empty body; plus all disturbance sequences of length <= 2 (thorough 3) over {garbage bytes, half a request then idle, connect + RST, 8 concurrent scrapers, 4 refused scrapes, a silent connection held open by a refused peer, a keep-alive connection idling after its answer held by a refused peer and by an allowed peer} each followed by probes that must be served; plus an exporter listening on [::1] scraped from ::1 under no allowlist and all subsets of size 1-2 of {::1, ::1/128, ::/64, ::/8, fe80::/10, 2001:db8::/32, 127.0.0.1, 0.0.0.0/8} (an IPv4 network never admits an IPv6 peer); plus all sequences (depth <= 3 quick / 5 thorough) over {record, scrape, wait for the exporter's periodic upkeep task (15 ms period)}: every scrape reports exactly the samples recorded so far; distinct_nontrivial = distinct (allowlist, peer, outcome) / (sequence, outcome) cases",
         assumptions: &["tokio / hyper task scheduling runs free: request histories are enumerated, not the server's internal interleavings", "a response is awaited 3 s and then once more for 30 s before 'not served' is reported"],
         parts,
         run,
